@@ -5,8 +5,13 @@
   group: exactly the nodes constructible through the public API (DESIGN.md section 2, D26).
   In the sorted representation two nodes have "the same kind and the same content" iff
   they are equal as terms, so the property reads `equals x y = true ↔ x = y`.
+  "The two share no state" is stated and proved on the heap-level model (section "Pointer
+  level" below: `heap_clone_prefix`, `heap_clone_fresh`, `heap_clone_abs`,
+  `heap_clone_independent…`) and tied to the code by the sharing-map correspondence of
+  harness/heap_share.go.
 -/
 import YtkProofs.Equal
+import YtkProofs.Heap
 
 namespace Ytk.C05
 
@@ -65,5 +70,179 @@ theorem nonvacuous_subset_pair : equals exSmall exBig = false ∧ equals exBig e
   decide
 
 theorem nonvacuous_refl : equals exDoc exDoc = true := by decide
+
+/-! ## Pointer level: Clone on the heap model (YtkModel/Heap.lean)
+
+  A document is a root address in a heap of cells; allocation appends, so "new" means
+  `address ≥ old size` and "no existing object was written" means "the old heap is a prefix".
+  What the code shares between a clone and its original: NOTHING — `leaf.Clone` allocates a new
+  leaf even for the shared nil leaf, so not even immutable leaves are common. -/
+
+section heap
+open Ytk.Heap
+
+/-- On a closed (every stored address in range) and acyclic (ranked) heap, Clone of any root
+    succeeds with any fuel above the root's rank; the clone's abstraction is the value-level
+    `clone` of the original's abstraction (= the same document) and the original root still
+    abstracts to what it did. -/
+theorem heap_clone_abs (h : Heap) (hc : h.Closed) (rank : Addr → Nat) (hr : h.RankedBy rank)
+    (a : Addr) (ha : a < h.size) (f : Nat) (hf : rank a < f) :
+    ∃ n h' r, absH f h a = some n ∧ cloneF f h a = some (h', r) ∧
+      absH f h' r = some (Ytk.clone n) ∧ absH f h' a = some n := by
+  obtain ⟨d, rfl⟩ : ∃ d, f = d + 1 := ⟨f - 1, by omega⟩
+  obtain ⟨n, hn⟩ := absH_of_ranked hc hr d a (Nat.le_of_lt_succ hf) ha
+  obtain ⟨h', r, hcl, hab⟩ := cloneF_abs (d + 1) h a n hn
+  refine ⟨n, h', r, hn, hcl, ?_, ?_⟩
+  · rw [clone_id]; exact hab
+  · exact absH_mono (cloneF_spec (d + 1) h a h' r hcl).1 (d + 1) a n hn
+
+/-- The same for any root whose abstraction is defined (only the part of the heap below the
+    root has to be closed and acyclic). -/
+theorem heap_clone_abs_of_defined (f : Nat) (h : Heap) (a : Addr) (n : Node)
+    (hn : absH f h a = some n) :
+    ∃ h' r, cloneF f h a = some (h', r) ∧ absH f h' r = some (Ytk.clone n) ∧
+      absH f h' a = some n := by
+  obtain ⟨h', r, hcl, hab⟩ := cloneF_abs f h a n hn
+  refine ⟨h', r, hcl, ?_, absH_mono (cloneF_spec f h a h' r hcl).1 f a n hn⟩
+  rw [clone_id]; exact hab
+
+/-- The driver's entry points (`clone`, `abs`: fuel = heap size): on every closed acyclic heap
+    Clone of any in-range root succeeds, the clone abstracts to the original's document and the
+    original still does. -/
+theorem heap_clone_total (h : Heap) (hc : h.Closed) (ha : h.Acyclic) (a : Addr) (hlt : a < h.size) :
+    ∃ n h' r, abs h a = some n ∧ Ytk.Heap.clone h a = some (h', r) ∧
+      abs h' r = some (Ytk.clone n) ∧ abs h' a = some n := by
+  obtain ⟨n, hn⟩ := abs_defined hc ha hlt
+  obtain ⟨h', r, hcl, hr, hor⟩ := heap_clone_abs_of_defined h.size h a n hn
+  have hsz := Heap.size_le_of_le (cloneF_spec h.size h a h' r hcl).1
+  exact ⟨n, h', r, hn, hcl, absH_fuel_le hsz hr, absH_fuel_le hsz hor⟩
+
+/-- Cloning never writes an existing cell: the old heap is a prefix of the new one, cell for cell. -/
+theorem heap_clone_prefix (f : Nat) (h h' : Heap) (a r : Addr) (hc : cloneF f h a = some (h', r)) :
+    h ≤ h' ∧ ∀ b, b < h.size → h'.get? b = h.get? b :=
+  ⟨(cloneF_spec f h a h' r hc).1, fun _ hb => Heap.get?_eq_of_le (cloneF_spec f h a h' r hc).1 hb⟩
+
+/-- EVERY cell reachable from the clone root — containers, lists and also leaves, the nil leaf
+    included — was allocated by the Clone call (address ≥ old size, < new size): a clone shares
+    no object at all with anything that existed before. -/
+theorem heap_clone_fresh (f : Nat) (h h' : Heap) (a r : Addr) (hc : cloneF f h a = some (h', r)) :
+    ∀ b, Reach h' r b → h.size ≤ b ∧ b < h'.size := by
+  obtain ⟨_, h1, h2, _⟩ := cloneF_spec f h a h' r hc
+  intro b hb
+  exact (cloneF_region hc).reach hb h1 h2
+
+/-- … in particular for the executable `reach`, and the shared nil leaf is not among them. -/
+theorem heap_clone_fresh_reach (f : Nat) (h h' : Heap) (a r : Addr) (hc : cloneF f h a = some (h', r)) :
+    (∀ b ∈ reach h' r, h.size ≤ b) ∧ (0 < h.size → nilAddr ∉ reach h' r) := by
+  have hall : ∀ b ∈ reach h' r, h.size ≤ b := fun b hb =>
+    (heap_clone_fresh f h h' a r hc b (mem_reachF _ _ _ hb)).1
+  refine ⟨hall, fun hpos hmem => ?_⟩
+  have := hall _ hmem
+  exact absurd hpos (Nat.not_lt.mpr this)
+
+/-- FRAME: an in-place write at `a` only changes the abstraction of roots that reach `a`. -/
+theorem heap_write_frame (h : Heap) (r a : Addr) (c : Cell) (hnr : ¬ Reach h r a) (f : Nat) :
+    absH f (h.write a c) r = absH f h r :=
+  absH_write_frame c hnr f
+
+/-- Independence, clone side: any sequence of in-place writes to cells allocated by or after the
+    Clone call (the clone's own cells are such, `heap_clone_fresh`) and of allocations leaves the
+    abstraction of EVERY root of the old heap unchanged — and every old cell as it was. -/
+theorem heap_clone_independent (f : Nat) (h h1 h2 : Heap) (a r : Addr)
+    (hc : cloneF f h a = some (h1, r))
+    (hw : Writes (fun _ b => h.size ≤ b) h1 h2) :
+    h ≤ h2 ∧ ∀ (g : Nat) (x : Addr) (n : Node), absH g h x = some n → absH g h2 x = some n := by
+  have hl := hw.le_of_fresh (cloneF_spec f h a h1 r hc).1
+  exact ⟨hl, fun g x n hn => absH_mono hl g x n hn⟩
+
+/-- Independence, original side: any sequence of in-place writes to cells that are NOT the
+    clone's (old cells, or cells allocated after the Clone call) and of allocations leaves the
+    clone's abstraction unchanged. -/
+theorem heap_clone_independent_symm (f : Nat) (h h1 h2 : Heap) (a r : Addr)
+    (hc : cloneF f h a = some (h1, r))
+    (hw : Writes (fun _ b => b < h.size ∨ h1.size ≤ b) h1 h2) :
+    ∀ (g : Nat) (n : Node), absH g h1 r = some n → absH g h2 r = some n := by
+  obtain ⟨_, b1, b2, _⟩ := cloneF_spec f h a h1 r hc
+  intro g n hn
+  exact (hw.region_frame (cloneF_region hc) (Nat.le_refl _)).2 g r n b1 b2 hn
+
+/-- The same two statements for literal builder histories: `ops` is any list of calls of
+    AddValue / AddContainer / AddList / Remove / Set / Append / Clear (`Op`, `applyOps`).
+    (i) calls on cells of the clone (or created later) never change any document of the old heap;
+    (ii) calls on cells of the original (or created later) never change the clone. -/
+theorem heap_clone_independent_ops (f : Nat) (h h1 h2 : Heap) (a r : Addr) (ops : List Op)
+    (hc : cloneF f h a = some (h1, r)) (he : applyOps h1 ops = some h2) :
+    ((∀ op ∈ ops, h.size ≤ op.target) →
+      ∀ (g : Nat) (x : Addr) (n : Node), absH g h x = some n → absH g h2 x = some n) ∧
+    ((∀ op ∈ ops, op.target < h.size ∨ h1.size ≤ op.target) →
+      ∀ (g : Nat) (n : Node), absH g h1 r = some n → absH g h2 r = some n) :=
+  ⟨fun hq => (heap_clone_independent f h h1 h2 a r hc (applyOps_writes hq he)).2,
+   fun hq => heap_clone_independent_symm f h h1 h2 a r hc (applyOps_writes hq he)⟩
+
+/-- The general form: writes that avoid what a root reaches (at the time of each write) leave
+    that root's abstraction alone. -/
+theorem heap_writes_frame (r : Addr) (h h' : Heap)
+    (hw : Writes (fun g a => ¬ Reach g r a) h h') (f : Nat) (n : Node)
+    (hn : absH f h r = some n) : absH f h' r = some n :=
+  hw.absH_frame hn
+
+/-- The builder mutators are such writes: each writes exactly the cell it is called on
+    (AddContainer / AddList also allocate the new child). -/
+theorem heap_builder_writes (Q : Addr → Prop) (h h' : Heap) (c : Addr) (hq : Q c) :
+    (∀ name v, addValue h c name v = some h' → Writes (fun _ a => Q a) h h') ∧
+    (∀ name, Ytk.Heap.remove h c name = some h' → Writes (fun _ a => Q a) h h') ∧
+    (∀ name b, addContainer h c name = some (h', b) → Writes (fun _ a => Q a) h h') ∧
+    (∀ name b, addList h c name = some (h', b) → Writes (fun _ a => Q a) h h') ∧
+    (∀ idx v, Ytk.Heap.listSet h c idx v = some h' → Writes (fun _ a => Q a) h h') ∧
+    (∀ v, Ytk.Heap.listAppend h c v = some h' → Writes (fun _ a => Q a) h h') ∧
+    (listClear h c = some h' → Writes (fun _ a => Q a) h h') :=
+  ⟨fun _ _ he => addValue_writes hq he, fun _ he => remove_writes hq he,
+   fun _ _ he => addContainer_writes hq he, fun _ _ he => addList_writes hq he,
+   fun _ _ he => listSet_writes hq he, fun _ he => listAppend_writes hq he,
+   fun he => listClear_writes hq he⟩
+
+/-! ### Non-vacuity on a concrete heap
+
+  `exHeap`: 0 nilLeaf · 1 leaf 1 · 2 list [nilLeaf, #1, #1] · 3 {x: nilLeaf} ·
+  4 {a: #1, b: #2, c: #3, n: nilLeaf} — a DAG (leaf #1 and the nil leaf occur several times). -/
+def exHeap : Heap := ⟨[.leaf Scalar.null, .leaf ⟨"int", "1"⟩, .list [0, 1, 1], .cont [("x", 0)],
+  .cont [("a", 1), ("b", 2), ("c", 3), ("n", 0)]]⟩
+
+def exRank : Addr → Nat | 4 => 2 | 3 => 1 | 2 => 1 | _ => 0
+
+theorem nonvacuous_heap_wf : exHeap.Closed ∧ exHeap.RankedBy exRank ∧ exHeap.NilOk :=
+  ⟨closed_of_all (by decide), rankedBy_of_all (by decide), rfl⟩
+
+/-- the clone of root 4 occupies the nine new cells 5‥13 (every leaf occurrence its own cell),
+    abstracts to the same document, and the old cells are untouched -/
+theorem nonvacuous_heap_clone :
+    (Ytk.Heap.clone exHeap 4).map (fun p => (p.1.size, p.2)) = some (14, 13) ∧
+    (Ytk.Heap.clone exHeap 4).bind (fun p => abs p.1 p.2) = abs exHeap 4 ∧
+    (abs exHeap 4).isSome = true ∧
+    (Ytk.Heap.clone exHeap 4).map (fun p => p.1.cells.take 5) = some exHeap.cells ∧
+    (Ytk.Heap.clone exHeap 4).map (fun p => (reach p.1 p.2).all (fun b => decide (5 ≤ b))) = some true := by
+  decide
+
+/-- writing into the clone (AddValue on the clone root 13, Clear on its list 9) does not show in
+    the original, and writing into the original does not show in the clone -/
+theorem nonvacuous_heap_independent :
+    ((Ytk.Heap.clone exHeap 4).bind fun p => (addValue p.1 13 "z" 1).bind fun h2 =>
+      (listClear h2 9).bind fun h3 => abs h3 4) = abs exHeap 4 ∧
+    ((Ytk.Heap.clone exHeap 4).bind fun p => (Ytk.Heap.remove p.1 4 "a").bind fun h2 =>
+      (Ytk.Heap.listAppend h2 2 0).bind fun h3 => abs h3 13) = abs exHeap 4 := by
+  decide
+
+/-- the same through `applyOps`: a builder history on the clone's cells (13 root, 9 list, 11
+    nested container), then one on the original's -/
+theorem nonvacuous_heap_ops :
+    ((Ytk.Heap.clone exHeap 4).bind fun p =>
+      (applyOps p.1 [.addLeaf 13 "z" ⟨"int", "7"⟩, .listClear 9, .addContainer 11 "k", .remove 13 "a",
+        .listSetLeaf 9 2 ⟨"int", "8"⟩]).bind fun h2 => abs h2 4) = abs exHeap 4 ∧
+    ((Ytk.Heap.clone exHeap 4).bind fun p =>
+      (applyOps p.1 [.remove 4 "b", .listAppend 2 13, .addList 3 "l", .listClear 2]).bind fun h2 =>
+        abs h2 13) = abs exHeap 4 := by
+  decide
+
+end heap
 
 end Ytk.C05
